@@ -712,6 +712,12 @@ func nilnessOn(fn *ssa.Function, v ssa.Value, pred *ssa.BasicBlock) int {
 		if o := calleeObj(x); o != nil && (isFunc(o, "fmt", "Errorf") || isFunc(o, "errors", "New")) {
 			return +1
 		}
+	case *ssa.UnOp:
+		// an exported sentinel error (filepath.ErrBadPattern, io.EOF, filepath.SkipDir): the same
+		// assumption definitelyNonNilErr makes
+		if x.Op == token.MUL && definitelyNonNilErr(x) {
+			return +1
+		}
 	}
 	nn, nl := nonNilEdgesOf(fn, v)
 	if len(nn) > 0 && guarded(pred, nn) {
